@@ -72,6 +72,8 @@ var properties = map[string]PropSpec{
 		Run: func(c *Ctx) {
 			c.ruleInv()
 			c.ruleConv()
+			c.ttCanPushNester()
+			c.ttCondExprHandler()
 			c.rep.floor("R-CONV", 30)
 		},
 	},
@@ -86,6 +88,7 @@ var properties = map[string]PropSpec{
 			}
 			c.ruleLabels()
 			c.ruleCondRow()
+			c.ruleDeenvelope()
 			c.ruleMarshalReproc()
 			c.ruleMarshalOut()
 			c.rep.floor("R-MARSHAL", 5)
@@ -102,6 +105,7 @@ var properties = map[string]PropSpec{
 			c.ruleLabels()
 			c.ruleCondRow()
 			c.ruleUnmarshalLoop()
+			c.ruleDeenvelope()
 			c.ruleMarshalReproc()
 			c.rep.floor("R-TBL", 7)
 			c.rep.floor("R-MARSHAL", 1)
@@ -197,6 +201,7 @@ var properties = map[string]PropSpec{
 			c.ruleCapW()
 			c.ruleCapInv()
 			c.ruleCapEq()
+			c.ruleMarshalOut() // an initialised (capacity-bearing) receiver is never re-seated by Marshal
 			c.rep.floor("R-SLOT0", 12)
 			c.rep.floor("R-CAP", 10)
 			c.rep.floor("R-CAPEQ", 6)
